@@ -318,6 +318,14 @@ func processDir(repo, rel string, files []string, out string, replace map[string
 					se := t.Fun.(*ast.SelectorExpr)
 					add(off(se.Pos()), off(se.End())-off(se.Pos()), "verifrt.Now")
 					counts["R-time"]++
+				} else if isPkgSel(t.Fun, timeName, "NewTimer") && len(t.Args) == 1 {
+					se := t.Fun.(*ast.SelectorExpr)
+					add(off(se.Pos()), off(se.End())-off(se.Pos()), "verifrt.NewTimer")
+					counts["R-timer"]++
+				} else if isPkgSel(t.Fun, timeName, "Until") && len(t.Args) == 1 {
+					se := t.Fun.(*ast.SelectorExpr)
+					add(off(se.Pos()), off(se.End())-off(se.Pos()), "verifrt.Until")
+					counts["R-timer"]++
 				} else if isPkgSel(t.Fun, osName, "Getpid") && len(t.Args) == 0 {
 					se := t.Fun.(*ast.SelectorExpr)
 					add(off(se.Pos()), off(se.End())-off(se.Pos()), "verifrt.Getpid")
@@ -398,7 +406,7 @@ func processDir(repo, rel string, files []string, out string, replace map[string
 		b.Write(p.src[cur:])
 		// keep possibly-now-unused imports alive
 		b.WriteString("\n")
-		if timeName != "" && counts["R-time"] > 0 {
+		if timeName != "" && (counts["R-time"] > 0 || counts["R-timer"] > 0) {
 			b.WriteString("var _ = " + timeName + ".Unix\n")
 		}
 		if osName != "" && counts["R-pid"] > 0 {
